@@ -60,10 +60,12 @@ def sig_of(v):
         return "%s/%s/ban%s" % (v.get("prop"), what, st.get("ban")) + ("/bystander-%s-address" % st.get("third") if "bystander" in what else "") + ("/shared-account" if st.get("shared") else "")
     if op == "multi":
         return "%s/%s/edit%s/%s" % (v.get("prop"), what, st.get("edit"), d.get("session", "?"))
+    if op == "batch":
+        return "%s/%s/%s" % (v.get("prop"), what, "+".join(d.get("kinds") or []))
     if op == "open":
         return "%s/%s/editor-%s" % (v.get("prop"), what, "16+17" if 17 in (st.get("racc") or []) else "16")
     if op == "upd":
-        return "%s/%s/via%s" % (v.get("prop"), what, st.get("via"))
+        return "%s/%s/via%s" % (v.get("prop"), what, st.get("via")) + ("/namesake-%s" % st.get("near") if "bystander" in what else "")
     if op == "rt":
         return "%s/%s/missing=%s/extra=%s" % (v.get("prop"), what, _bits(d.get("missing")), _bits(d.get("extra")))
     return "%s/%s" % (v.get("prop"), what)
@@ -73,9 +75,10 @@ def _case_of(ev):
     """The script (input) part of a logged event."""
     keys = {"handle": ("op", "t", "k", "acc", "rd"), "create": ("op", "via", "by", "acc", "login", "want", "shape"),
             "kick": ("op", "acc", "tacc", "ban", "third", "pacc", "shared"), "rt": ("op", "S", "bytes", "names"),
-            "upd": ("op", "via", "S", "old", "bytes"),
+            "upd": ("op", "via", "S", "old", "bytes", "near", "B"),
+            "batch": ("op", "acc", "entries"),
             "open": ("op", "S", "racc", "bytes", "rbytes"),
-            "multi": ("op", "kind", "edit", "n", "k", "a0", "a1", "ban", "via", "want")}.get(ev.get("op"), ())
+            "multi": ("op", "kind", "edit", "n", "k", "a0", "a1", "ban", "via", "want", "near")}.get(ev.get("op"), ())
     return {k: ev[k] for k in keys if k in ev}
 
 
